@@ -533,7 +533,26 @@ def parse_strace(log_path: str, c: dict, d: str) -> SysTrace:
     if real:
         dest_paths[real] = 1
     model_path = os.path.join(d, MODEL_NAME)
-    fds: dict = {}  # fd -> (path, kind, opener pid)
+    fds: dict = {}  # fd -> [(path, kind, opener pid)]; a list because strace may log the close of a
+    #                 descriptor by one thread AFTER its reuse by an openat of another thread
+
+    def fd_add(fd, ent):
+        fds.setdefault(fd, []).append(ent)
+
+    def fd_get(fd, pid):
+        lst = fds.get(fd) or []
+        for e in lst:
+            if e[2] == pid:
+                return e
+        return lst[0] if lst else None
+
+    def fd_pop(fd, pid):
+        lst = fds.get(fd) or []
+        e = fd_get(fd, pid)
+        if e is not None:
+            lst.remove(e)
+        if not lst:
+            fds.pop(fd, None)
     counts: dict = {}  # (pid, syscall) -> n
     workers: dict = {}
     main_pid = None
@@ -577,19 +596,19 @@ def parse_strace(log_path: str, c: dict, d: str) -> SysTrace:
             if okret:
                 flags = args[2]
                 kind = "r" if "O_RDONLY" in flags else ("rw" if "O_RDWR" in flags else "w")
-                fds[int(ret)] = (p, kind, pid)
+                fd_add(int(ret), (p, kind, pid))
             path_args = [p]
         elif name in ("dup", "dup2", "dup3") and okret:
             src = int(args[0])
-            if src in fds:
-                fds[int(ret)] = (fds[src][0], "dup", pid)
+            if fd_get(src, pid):
+                fd_add(int(ret), (fd_get(src, pid)[0], "dup", pid))
         elif name == "fcntl" and okret and len(args) > 1 and "F_DUPFD" in args[1]:
             src = int(args[0])
-            if src in fds:
-                fds[int(ret)] = (fds[src][0], "dup", pid)
+            if fd_get(src, pid):
+                fd_add(int(ret), (fd_get(src, pid)[0], "dup", pid))
         if not tr.begin or tr.end:
             if name == "close" and okret:
-                fds.pop(int(args[0]), None)
+                fd_pop(int(args[0]), pid)
             continue
         r = "ok" if okret else ("kill" if ret == "?" else "fail")
         ev = None
@@ -609,7 +628,7 @@ def parse_strace(log_path: str, c: dict, d: str) -> SysTrace:
                 ev = {"a": "ModelIO"}
         elif name in ("write", "pwrite64"):
             fd = int(args[0])
-            ent = fds.get(fd)
+            ent = fd_get(fd, pid)
             if ent and is_tmpfile(ent[0]):
                 b = _first_byte(args[1])
                 n = int(args[2])
@@ -623,7 +642,7 @@ def parse_strace(log_path: str, c: dict, d: str) -> SysTrace:
                 ev = {"a": "ModelIO"}
         elif name == "copy_file_range":
             fd_out = int(args[2])
-            ent = fds.get(fd_out)
+            ent = fd_get(fd_out, pid)
             if ent and is_tmpfile(ent[0]):
                 off_in = int(re.sub(r"[\[\]]", "", args[1])) if args[1] != "NULL" else 0
                 idx = off_in // CH - 1
@@ -633,12 +652,12 @@ def parse_strace(log_path: str, c: dict, d: str) -> SysTrace:
                 else:
                     ev = {"a": "WriteChunk", "t": t, "j": 1}
         elif name in ("ftruncate",):
-            ent = fds.get(int(args[0]))
+            ent = fd_get(int(args[0]), pid)
             if ent and is_tmpfile(ent[0]):
                 ev = {"a": "Prealloc"}
         elif name == "close":
             fd = int(args[0])
-            ent = fds.get(fd)
+            ent = fd_get(fd, pid)
             if ent and is_tmpfile(ent[0]) and ent[1] == "w":
                 ev = {"a": "CloseTmp"}
             elif ent and is_tmpfile(ent[0]) and ent[1] == "rw":
@@ -646,7 +665,7 @@ def parse_strace(log_path: str, c: dict, d: str) -> SysTrace:
             elif ent and ent[0] == model_path and ent[1] != "dup":
                 ev = {"a": "ModelIO"}
             if r != "kill":
-                fds.pop(fd, None)  # an injected close failure: Python forgets the descriptor anyway
+                fd_pop(fd, pid)  # an injected close failure: Python forgets the descriptor anyway
         elif name in ("chmod", "fchmodat"):
             p = absp(_unq(args[0] if name == "chmod" else args[1]))
             if is_tmpfile(p):
@@ -675,14 +694,14 @@ def parse_strace(log_path: str, c: dict, d: str) -> SysTrace:
             if any(d in a for a in args):
                 ev = {"a": "Other:" + name}
             elif name in ("writev", "fallocate", "sendfile", "fchmod"):
-                ent = fds.get(int(args[0] if name != "sendfile" else args[0]))
+                ent = fd_get(int(args[0]), pid)
                 if ent and ent[0].startswith(d):
                     ev = {"a": "Other:" + name}
         # an openat of a destination for WRITING is never expected (direct write)
         if name == "openat" and ev is None and path_args and path_args[0] in dest_paths and "O_RDONLY" not in args[2]:
             ev = {"a": "OpenDestForWrite"}
         if name in ("write", "pwrite64") and ev is None:
-            ent = fds.get(int(args[0]))
+            ent = fd_get(int(args[0]), pid)
             if ent and ent[0] in dest_paths:
                 ev = {"a": "WriteDest"}
         if ev is None:
